@@ -548,7 +548,6 @@ func (g *G) equals(t types.Type, x, y Value) BoolV {
 	panic(unsupported(fmt.Sprintf("equals on %T", x)))
 }
 
-
 func (vm *VM) band(a, b BoolV) BoolV {
 	if a.S == nil {
 		if !a.C {
